@@ -3,6 +3,7 @@
 package grpcutil
 
 import (
+	"unicode/utf8"
 	"context"
 
 	conformancev1 "connectrpc.com/conformance/internal/gen/proto/go/connectrpc/conformance/v1"
@@ -258,3 +259,74 @@ func h18f(viaContext bool) {
 
 func H18f_q() { h18f(false) }
 func H18g_q() { h18f(true) }
+
+// H18r (translator validation): the engine's built-in `range` over a string with symbolic bytes (UTF-8 decoding at
+// symbolic offsets) agrees with a reference decoder written out in Go below and executed from its SSA - offsets,
+// runes, number of iterations - for every string of <= 3 bytes. Natively the reference decoder is first compared
+// with unicode/utf8.DecodeRuneInString on every string of <= 3 bytes, and the real `range` runs.
+func vRefDecode(s string) (rune, int) {
+	n := len(s)
+	if n == 0 {
+		return 0xFFFD, 0
+	}
+	b0 := s[0]
+	if b0 < 0x80 {
+		return rune(b0), 1
+	}
+	cont := func(b byte) bool { return b >= 0x80 && b <= 0xBF }
+	if b0 >= 0xC2 && b0 <= 0xDF {
+		if n >= 2 && cont(s[1]) {
+			return rune(b0&0x1F)<<6 | rune(s[1]&0x3F), 2
+		}
+		return 0xFFFD, 1
+	}
+	if b0 >= 0xE0 && b0 <= 0xEF {
+		if n >= 3 && cont(s[2]) {
+			lo, hi := byte(0x80), byte(0xBF)
+			if b0 == 0xE0 {
+				lo = 0xA0
+			} else if b0 == 0xED {
+				hi = 0x9F
+			}
+			if s[1] >= lo && s[1] <= hi {
+				return rune(b0&0x0F)<<12 | rune(s[1]&0x3F)<<6 | rune(s[2]&0x3F), 3
+			}
+		}
+		return 0xFFFD, 1
+	}
+	// four-byte forms cannot be complete in a string of <= 3 bytes
+	return 0xFFFD, 1
+}
+
+func H18r_q() {
+	if vNative() {
+		var buf [3]byte
+		for n := 1; n <= 3; n++ {
+			total := 1 << (8 * n)
+			for v := 0; v < total; v++ {
+				buf[0], buf[1], buf[2] = byte(v), byte(v>>8), byte(v>>16)
+				str := string(buf[:n])
+				r1, w1 := vRefDecode(str)
+				r2, w2 := utf8.DecodeRuneInString(str)
+				if r1 != r2 || w1 != w2 {
+					panic("reference decoder disagrees with unicode/utf8")
+				}
+			}
+		}
+	}
+	n := vInt("n", 0, 3)
+	b := make([]byte, n)
+	for i := 0; i < n; i++ {
+		b[i] = vByteAt("b", i, 3)
+	}
+	s := string(b)
+	pos, k := 0, 0
+	for i, r := range s {
+		vAssert(i == pos, "range yields the byte offset of each rune")
+		want, w := vRefDecode(s[pos:])
+		vAssert(r == want, "range yields the rune the reference decoder yields")
+		pos += w
+		k++
+	}
+	vAssert(pos == len(s) && k <= 3, "range visits the whole string")
+}
